@@ -751,6 +751,56 @@ func stackBoundaryBody(c *mc.Ctx, item int) mc.Verdict {
 	return run(c, f, cm.Write(f, cm.Layout{}), fmt.Sprintf("bfrange block with %d entries, the last one mapping to an array of %d names (%d objects on the operand stack)", k, n, total), "")
 }
 
+// duplicateBody: "its code map holds exactly the file's entries": an entry
+// that is written twice, word for word, is two entries (in one block, in two
+// blocks of the same kind, next to other entries).
+var dupKinds = []cm.Kind{cm.CidChar, cm.CidRange, cm.BfChar, cm.BfRange, cm.NotdefChar, cm.NotdefRange}
+
+func duplicateBody(c *mc.Ctx, item int) mc.Verdict {
+	kind := dupKinds[item%len(dupKinds)]
+	shape := item / len(dupKinds)
+	mk := func(i int) cm.Entry {
+		e := cm.Entry{Lo: cm.Str(0x30, byte(0x10*i))}
+		if kind.HasBounds() {
+			e.Hi = cm.Str(0x30, byte(0x10*i+5))
+		}
+		switch kind {
+		case cm.CidChar, cm.CidRange, cm.NotdefChar, cm.NotdefRange:
+			e.Dst = cm.Int(100 + i)
+		case cm.BfChar:
+			e.Dst = cm.Str(0, byte(0x41+i))
+		case cm.BfRange:
+			e.Dst = cm.Str(0, byte(0x41+i))
+		}
+		return e
+	}
+	m := baseCMap(0)
+	m.Blocks = append(m.Blocks, cm.Block{Kind: cm.CodeSpaceRange, Declared: -1, Entries: []cm.Entry{{Lo: cm.Str(0, 0), Hi: cm.Str(0xff, 0xff)}}})
+	var what string
+	switch shape {
+	case 0:
+		what = "the same entry twice in one block"
+		m.Blocks = append(m.Blocks, cm.Block{Kind: kind, Declared: -1, Entries: []cm.Entry{mk(1), mk(1)}})
+	case 1:
+		what = "the same entry in two blocks"
+		m.Blocks = append(m.Blocks, cm.Block{Kind: kind, Declared: -1, Entries: []cm.Entry{mk(1)}}, cm.Block{Kind: kind, Declared: -1, Entries: []cm.Entry{mk(1)}})
+	case 2:
+		what = "the same entry three times among others"
+		m.Blocks = append(m.Blocks, cm.Block{Kind: kind, Declared: -1, Entries: []cm.Entry{mk(2), mk(1), mk(3), mk(1)}}, cm.Block{Kind: kind, Declared: -1, Entries: []cm.Entry{mk(0), mk(1)}})
+	default:
+		what = "two entries with the same source and different destinations, and one repeated"
+		e := mk(1)
+		if kind == cm.BfChar || kind == cm.BfRange {
+			e.Dst = cm.Str(0, 0x7a)
+		} else {
+			e.Dst = cm.Int(999)
+		}
+		m.Blocks = append(m.Blocks, cm.Block{Kind: kind, Declared: -1, Entries: []cm.Entry{mk(1), e, mk(1)}})
+	}
+	f := cm.File{CMaps: []cm.CMap{m}}
+	return run(c, f, cm.Write(f, cm.Layout{}), fmt.Sprintf("%v: %s", kind, what), "")
+}
+
 // preambleBody: a standard-form CMap behind a long licence header (comment
 // lines, DSC lines or blank lines): what comes before `begincmap` may be of
 // any length.
@@ -981,6 +1031,14 @@ func main() {
 				Budget:   budget,
 				Rule:     "item = code width 1..4 x range {full <00..> <ff..>, full minus the first code, full minus the last code, the first code alone, the last code alone} x kind {cidrange, bfrange, notdefrange, codespacerange}: each is a valid entry and must be returned unchanged; non-trivial = all",
 				CrashKey: func(int) string { return "C07:crash:extreme-ranges" },
+			})
+			fams = append(fams, mc.Family{
+				Name:     "repeated-entries",
+				Items:    len(dupKinds) * 4,
+				Body:     duplicateBody,
+				Budget:   budget,
+				Rule:     "item = kind of 6 mapping kinds x {the same entry twice in one block; in two blocks; three times among other entries in two blocks; two entries with one source and different destinations plus a repetition}: every entry of every block is in the table (compared as a multiset per source code, since the order among equal sources is not prescribed); non-trivial = all",
+				CrashKey: func(int) string { return "C07:crash:repeated-entries" },
 			})
 			fams = append(fams, mc.Family{
 				Name:     "operand-stack-boundary",
